@@ -44,7 +44,7 @@ fn mutator(rng: &mut Rng, n: &mut u32) -> String {
     *n += 1;
     let k = *n;
     let j = rng.range(1, 3);
-    match rng.below(36) {
+    match rng.below(40) {
         0..=2 => format!("x{j}=v{k}"),
         3 => format!("unset x{j}"),
         4 => format!("export ex{j}=v{k}"),
@@ -79,6 +79,10 @@ fn mutator(rng: &mut Rng, n: &mut u32) -> String {
         // mechanism lands on descriptor 0
         33 => "exec <&-".to_string(),
         34 => format!("exec {}<&-", rng.range(3, 6)),
+        // array values, and `$!`
+        35..=36 => format!("x{j}=(a{k} 'b c{k}' '')"),
+        37 => format!("ar{j}=()"),
+        38 => "{ : & }".to_string(),
         _ => format!("ulimit -n {}", rng.pick(&[40u32, 50, 60])),
     }
 }
@@ -284,7 +288,7 @@ fn check_test(t: &Test, snaps: &BTreeMap<String, SnapMap>) -> Option<Viol> {
     // --- parent unchanged
     let cs_var = format!("var:cs{k}");
     let leak_skip = |key: &str| -> bool {
-        key == "jobs" && t.kind == Kind::Async || key == cs_var && t.kind == Kind::Cs
+        (key == "jobs" || key == "lastasync") && t.kind == Kind::Async || key == cs_var && t.kind == Kind::Cs
     };
     let mut parents = vec![("C", c)];
     if t.kind == Kind::Async {
